@@ -77,11 +77,16 @@ deriving DecidableEq, Repr
 saving does not fail) -/
 def npzSave {α : Type} (d : Dict α) : Dict α := d
 
+/-- the value stored under `k` (if any) is a float array -/
+def liveOK {α : Type} (f : Dict α) (k : String) : Bool :=
+  match Dict.get? f k with
+  | some v => !v.isNone
+  | none => true
+
 /-- `dict(np.load(file))`: EVERY member of the archive is materialised, float arrays come back
 unchanged, an object array (a saved `None`) raises -/
 def npzLoad {α : Type} (f : Dict α) : Except Err (Dict α) :=
-  if f.all (fun e => match Dict.get? f e.1 with | some v => !v.isNone | none => true)
-  then .ok f else .error .objectArray
+  if f.all (fun e => liveOK f e.1) then .ok f else .error .objectArray
 
 def readStep {α : Type} (d : Dict α) (s : State α) (e : Entry) : Except Err (State α) :=
   match Dict.get? d e.key with
@@ -98,9 +103,15 @@ def load {α : Type} (sp : Spec) (file : Dict α) (s0 : State α) : Except Err (
   let d ← npzLoad file
   fromDict sp.reads d s0
 
+/-- `data.get(k, None)` -/
+def lookupOrNone {α : Type} (d : Dict α) (k : String) : Val α :=
+  match Dict.get? d k with
+  | some v => v
+  | none => .none
+
 /-- the pure effect of the read lines when no `KeyError` occurs -/
 def applyReads {α : Type} (R : List Entry) (d : Dict α) (s0 : State α) : State α :=
-  R.foldl (fun s e => s.set e.slot (match Dict.get? d e.key with | some v => v | none => .none)) s0
+  R.foldl (fun s e => s.set e.slot (lookupOrNone d e.key)) s0
 
 /-! ### tables with per-phase lines -/
 
